@@ -36,9 +36,14 @@ SpecialEntries == {[k |-> k, v |-> <<97>>, app |-> FALSE] : k \in {N_host, N_con
 \* illegal -bin keys next to a legal -bin key and a plain key
 BinVals == IF KeySet = 1 THEN {<<97>>, <<0,255>>} ELSE Vals
 BinEntries == {[k |-> k, v |-> v, app |-> a] : k \in {N_Kbin, N_katbin, N_kspbin, N_d_bin, N_k}, v \in BinVals, a \in BOOLEAN}
+\* values with leading / trailing / only spaces (printable ASCII: valid, and to be transferred byte-exact; a tab is not valid)
+SpaceVals == {<<32,97>>, <<97,32>>, <<32>>, <<32,32,97,32,98,32>>}
+SpaceEntries == {[k |-> k, v |-> v, app |-> a] : k \in {N_k, N_d_bin}, v \in SpaceVals, a \in BOOLEAN}
+PeerSpaceEntries == {[k |-> k, v |-> v, app |-> FALSE] : k \in {N_k, N_user_agent}, v \in SpaceVals}
 \* grp = TRUE: all appended pairs are handed to ONE AppendToOutgoingContext call (else one call per pair)
-Init == /\ \/ (kind = "user" /\ md \in SeqUpTo(Entries, MaxLen) \cup SeqUpTo(SpecialEntries, MaxLen) \cup SeqUpTo(BinEntries, MaxLen))
-           \/ (kind = "peer" /\ md \in SeqUpTo(PeerEntries, MaxLen))
+Init == /\ \/ (kind = "user" /\ md \in SeqUpTo(Entries, MaxLen) \cup SeqUpTo(SpecialEntries, MaxLen) \cup SeqUpTo(BinEntries, MaxLen)
+                                           \cup SeqUpTo(SpaceEntries, MaxLen))
+           \/ (kind = "peer" /\ md \in SeqUpTo(PeerEntries, MaxLen) \cup SeqUpTo(PeerSpaceEntries, MaxLen))
         /\ valid = Valid(md)
         /\ grp \in BOOLEAN /\ (grp => kind = "user" /\ Len(Appended(md)) >= 2)
 Next == UNCHANGED vars
